@@ -730,7 +730,7 @@ def f_fail(kind="fail"):
     if kind == "many_resources":
         return {"plan.py": script([tr(f"R{i:02d}", [], [f"r{i:02d}.txt"], resources={f"res{i:02d}": 1})
                                    for i in range(25)])}
-    if kind in ("globprod1", "globprod2"):
+    if kind in ("globprod1", "globprod2", "globprod2p"):
         # build 1 (globprod1): a.txt is static and a sub-plan globs *.txt; build 2 (globprod2): a.txt
         # becomes the output of a step declared before the (unchanged, recycled, skipped) sub-plan,
         # so only the end-of-build detection is left; notes.txt is an undeclared file that the same
@@ -740,6 +740,9 @@ def f_fail(kind="fail"):
             root = [["static", "a.txt", "sub.py"], ["plan", "./sub.py"]]
         else:
             root = [["static", "sub.py"], tr("A", [], ["a.txt"]), ["plan", "./sub.py"]]
+            if kind == "globprod2p":
+                # the same, and another required step stays pending on an input nothing declares
+                root.append(tr("M", ["nowhere.dat"], ["m.dat"]))
         return {"plan.py": script(root), "sub.py": sub, "a.txt": "a\n", "notes.txt": "notes\n"}
     if kind == "child_and_plan_fail":
         # the child fails, then its creator fails: the child is detached and stays FAILED
